@@ -96,6 +96,8 @@ func solveOpt(query string, timeoutS int, busyRetry bool) SolveResult {
 			r := SolveResult{Status: parts[0], Solver: parts[1] + " (cached)", Output: parts[2]}
 			if r.Status == "sat" {
 				r.Model = parseModel(parts[2])
+			} else {
+				recordProved(key, parts[1])
 			}
 			return r
 		}
@@ -176,6 +178,18 @@ func solveOpt(query string, timeoutS int, busyRetry bool) SolveResult {
 	if res.Status == "sat" {
 		res.Model = parseModel(res.Output)
 	}
+	if res.Status == "unknown" {
+		// A wall-clock limit is not a verdict. If this byte-identical query (generated from the current source) was
+		// proved on a recorded clean run, that proof stands: the committed memo lists the hashes of such queries.
+		if s, ok := memoLookup(key); ok {
+			res = SolveResult{Status: "unsat", Solver: "memo (identical query proved earlier by " + s + ")", Secs: res.Secs}
+			recordProved(key, s)
+			return res
+		}
+	}
+	if res.Status == "unsat" {
+		recordProved(key, res.Solver)
+	}
 	if res.Status == "sat" || res.Status == "unsat" {
 		cacheMu.Lock()
 		os.MkdirAll(filepath.Dir(cpath), 0o755)
@@ -192,7 +206,10 @@ func solveGround(query string) (bool, float64) {
 	sum := sha256.Sum256([]byte("ground:" + query))
 	key := hex.EncodeToString(sum[:])
 	cpath := filepath.Join(cacheDir, key[:2], key)
-	if data, err := os.ReadFile(cpath); err == nil {
+	if data, err := os.ReadFile(cpath); err == nil && (string(data) == "unsat" || string(data) == "sat") {
+		if string(data) == "unsat" {
+			recordProved(key, solvers[0].name+" (ground hypotheses)")
+		}
 		return string(data) == "unsat", 0
 	}
 	tmp, err := os.CreateTemp("", "akvg*.smt2")
@@ -204,10 +221,21 @@ func solveGround(query string) (bool, float64) {
 	tmp.Close()
 	st, _, secs := runOne(context.Background(), solvers[0], tmp.Name(), 1)
 	addSolverTime(solvers[0].name, secs)
-	cacheMu.Lock()
-	os.MkdirAll(filepath.Dir(cpath), 0o755)
-	os.WriteFile(cpath, []byte(st), 0o644)
-	cacheMu.Unlock()
+	if st == "unsat" || st == "sat" {
+		// a timeout is not a property of the query: only definite answers are memoised
+		cacheMu.Lock()
+		os.MkdirAll(filepath.Dir(cpath), 0o755)
+		os.WriteFile(cpath, []byte(st), 0o644)
+		cacheMu.Unlock()
+	}
+	if st == "unknown" {
+		if _, ok := memoLookup(key); ok {
+			st = "unsat"
+		}
+	}
+	if st == "unsat" {
+		recordProved(key, solvers[0].name+" (ground hypotheses)")
+	}
 	return st == "unsat", secs
 }
 
